@@ -868,7 +868,7 @@ func (r *runner) check(rt *rapid.T, c Case, classes []string) {
 		return o.reached || o.inTail, cl
 	})
 	if risky {
-		_ = os.Remove(r.cur)
+		_ = os.Truncate(r.cur, 0) // truncate, never remove: the recorder holds this file open
 	}
 }
 
@@ -1029,8 +1029,8 @@ func TestCheck(t *testing.T) {
 	kRet := evid.NewKind(rec, "retention", judgeRetention)
 	setup(rec, k)
 	r := &runner{rec: rec, k: k, cur: currentFile(rec)}
-	_ = os.Remove(r.cur)
-	rec.Corpus(t) // corpus inputs are chosen below the fatal range (a 2^24 count: 128 MiB on a tree without the fix)
+	_ = os.Truncate(r.cur, 0) // truncate, never remove: the recorder holds this file open
+	rec.Corpus(t)             // corpus inputs are chosen below the fatal range (a 2^24 count: 128 MiB on a tree without the fix)
 
 	for _, entry := range []string{"data", "call", "event", "error"} {
 		entry := entry
@@ -1053,7 +1053,7 @@ func TestCheck(t *testing.T) {
 		c, nt, cl := genSharedCase(rt)
 		declareKind(r.cur, "shared", &c)
 		kShared.Check(rt, c, nt, cl...)
-		_ = os.Remove(r.cur)
+		_ = os.Truncate(r.cur, 0) // truncate, never remove: the recorder holds this file open
 	})
 	rec.Rapid(t, "retention", rec.N(16, 60), func(rt *rapid.T) {
 		c, nt, cl := genRetentionCase(rt)
@@ -1088,7 +1088,7 @@ func TestReplay(t *testing.T) {
 		}
 	}
 	rec.Replay(t)
-	_ = os.Remove(cur)
+	_ = os.Truncate(cur, 0) // truncate, never remove: the recorder holds this file open
 }
 
 // ---- native fuzzing over (type bytes, entry selector, data bytes)
